@@ -127,3 +127,40 @@ def once_method(tree, defaults, name, weight_ok):
     b = call_term(ret.value, "other", defaults, weight_ok)
     return ("Definition %s (timing : pyonce) : res pyschedcall :=\n  match timing with\n  | PO_datetime timing_v => %s\n"
             "  | _ => %s\n  end.\n" % (name, a, b))
+
+
+METHODS = ["cyclic", "minutely", "hourly", "daily", "weekly"]
+
+
+def schedule_types(tree, name):
+    """cyclic/minutely/hourly/daily/weekly: typeguard check of the timing against the method's union, then
+    `return self.__schedule(job_type=JobType.K, timing=timing, handle=handle, **kwargs)`"""
+    arms = []
+    for m in METHODS:
+        fd = find_method(tree, "Scheduler", m)
+        body = [b for b in fd.body if not (isinstance(b, ast.Expr) and isinstance(b.value, ast.Constant) and isinstance(b.value.value, str))]
+        if [a.arg for a in fd.args.args] != ["self", "timing", "handle"] or fd.args.kwarg is None or fd.args.kwarg.arg != "kwargs":
+            fail(fd, "signature of %s" % m)
+        if len(body) != 2 or not isinstance(body[0], ast.Try) or not isinstance(body[1], ast.Return):
+            fail(fd, "%s() must be: typeguard check, return self.__schedule(...)" % m)
+        t = body[0]
+        ann = ast.unparse(fd.args.args[1].annotation)
+        want = ast.parse("try:\n    tg.check_type(timing, %s)\nexcept tg.TypeCheckError as err:\n    raise SchedulerError(X) from err\n" % ann).body[0]
+        got = ast.dump(t)
+        # the error message constant is free, everything else is fixed
+        if not (len(t.handlers) == 1 and isinstance(t.handlers[0].body[0], ast.Raise)
+                and ast.unparse(t.handlers[0].body[0].exc).startswith("SchedulerError(")):
+            fail(t, "typeguard check of %s" % m)
+        t.handlers[0].body[0].exc = want.handlers[0].body[0].exc
+        if ast.dump(t) != ast.dump(want):
+            fail(t, "typeguard check of %s" % m)
+        call = body[1].value
+        if not (isinstance(call, ast.Call) and isinstance(call.func, ast.Attribute) and call.func.attr.endswith("__schedule") and not call.args):
+            fail(call, "%s() must return self.__schedule(...)" % m)
+        kw = {k.arg: ast.unparse(k.value) for k in call.keywords}
+        jt = kw.get("job_type", "")
+        if set(kw) != {"job_type", "timing", "handle", None} or kw["timing"] != "timing" or kw["handle"] != "handle" \
+                or kw[None] != "kwargs" or not jt.startswith("JobType.") or jt[8:] not in JOBTYPE:
+            fail(call, "keywords handed to __schedule by %s" % m)
+        arms.append("  | M_%s => %s" % (m, JOBTYPE[jt[8:]]))
+    return "Definition %s (m : pymethod) : pyjobtype :=\n  match m with\n%s\n  end.\n" % (name, "\n".join(arms))
